@@ -8,9 +8,9 @@ LB = "internal/loadbalancer"
 RL = "internal/ratelimiter"
 
 ENGINES = [
-    dict(name="S", path="engine/shim/vrt", serves_properties=["C07", "C08", "C09"],
+    dict(name="S", path="engine/shim/vrt", serves_properties=["C02", "C04", "C07", "C08", "C09"],
          kind_free_text="controlled cooperative scheduler + stateless replay DFS with preemption bounding over the real Helios code (sync/atomic/time/go/select rewritten onto shims by vgen)"),
-    dict(name="H", path="engine/shim/vh/hrun.go", serves_properties=["C07", "C08", "C09"],
+    dict(name="H", path="engine/shim/vh/hrun.go", serves_properties=["C02", "C04", "C07", "C08", "C09"],
          kind_free_text="explicit-state breadth-first search over event histories of the real objects under a virtual clock, reflective state fingerprint for deduplication, reference-model / monitor oracle on every transition"),
 ]
 
@@ -52,6 +52,29 @@ CHECKS = {
             dict(name="c09s", part="S", pkg=RL, run="TestVerifC09S", mode="instr", shards=dict(quick=6, thorough=16)),
             dict(name="c09sys", part="Sys", pkg=LB, run="TestVerifC09Sys", mode="instr", shards=dict(quick=8, thorough=8)),
             dict(name="c09h", part="H", pkg=RL, run="TestVerifC09H", mode="instr", shards=dict(quick=6, thorough=9)),
+        ],
+        assumptions=[],
+    ),
+    "C02": dict(
+        level="model_checking",
+        engine="H",
+        technique="explicit-state BFS over histories of {request, held request, release, ejection, clock steps, add, remove} on the real LoadBalancer with a window monitor as oracle",
+        text="For every strategy and pool size 1..4 (thorough 1..5) every history up to the depth over {request from four client addresses, request held in flight, release, ejection of each backend through the real MarkBackendUnhealthy, clock +4s/+11s against a 10s window, add, remove} is replayed on the real LoadBalancer.ServeHTTP with scripted backends; a monitor that knows every injected window judges each request: served only by a listed backend outside its window, 503 only if every listed backend is inside its window and nothing was contacted.",
+        note="Ejections are injected through the exported method that passive checks and failed probes call; clock steps never land on a window boundary; rotation cursors are compared modulo the pool size in the state fingerprint (same futures); requests are sequential except those held at the transport gate.",
+        jobs=[
+            dict(name="c02h", part="H", pkg=LB, run="TestVerifC02", mode="instr", shards=dict(quick=16, thorough=16), timeout=dict(quick=600, thorough=3000)),
+        ],
+        assumptions=[],
+    ),
+    "C04": dict(
+        level="model_checking",
+        engine="S+H",
+        technique="explicit-state BFS over health histories (responses, probe ticks, clock steps) of the real LoadBalancer with a may/must monitor and a recovery sweep from every reachable state + exhaustive preemption-bounded schedule exploration of expiry/ejection/probe races",
+        text="For every strategy x passive threshold 0..3 x active on/off (2 backends; thorough also 3) every history up to the depth over {request from two clients, flip a backend between ok and 500/refusing, probe tick through the real ticker loop and checkBackendsHealth, clock +4s/+11s} is replayed; a may/must monitor fed only by what the scripted backends answered checks ejection-permitted, ejection-required, no traffic inside a window and that ListBackends and the metrics mirror never say healthy inside a window; from every reachable state a recovery sweep (windows elapsed, optional tick, 48 client addresses or overlapping requests for least_connections) must reach every backend. Three two-thread races (lazy expiry vs fresh ejection, in-flight probe vs ejection, two expiries) are explored under all interleavings up to the preemption bound with a final-state oracle.",
+        note="The monitor counts failed responses cumulatively since the last passive ejection (weakest reading of the statement); active probes go through http.Client on a stubbed http.DefaultTransport; the health-check goroutine, its ticker and select run under the controlled scheduler via the rewritten go/select statements.",
+        jobs=[
+            dict(name="c04s", part="S", pkg=LB, run="TestVerifC04S", mode="instr", shards=dict(quick=6, thorough=15)),
+            dict(name="c04h", part="H", pkg=LB, run="TestVerifC04H", mode="instr", shards=dict(quick=16, thorough=16), timeout=dict(quick=600, thorough=3000)),
         ],
         assumptions=[],
     ),
